@@ -187,6 +187,14 @@ GATEWAY = Stage(
     nontrivial=lambda e: e.get("ev") != "Start",
 )
 
+HELPERS = Stage(
+    family="helpers",
+    mc={"quick": [], "thorough": []},
+    parts={"quick": [("", 1)], "thorough": [("", 2)]},
+    trace=("Trace_Helpers.tla", "Trace_Helpers.cfg"),
+    nontrivial=lambda e: True,
+)
+
 CHECKS = {
     "C13": dict(
         stages=[CONC],
@@ -309,7 +317,7 @@ CHECKS = {
                      "credential search and to fabricate the SMGP server authenticator"],
     ),
     "C10": dict(
-        stages=[SESSION, GATEWAY],
+        stages=[SESSION, GATEWAY, HELPERS],
         technique="TLA+ session state machine over the command tables of Layouts.tla (Session.tla): TLC exhaustive over all "
                   "interleavings of outstanding requests + TLC validation of recorded real exchanges and dispatcher sweeps",
         level_text="TLC checks that every response in flight matches exactly one outstanding request for all request command "
